@@ -265,7 +265,44 @@ macro_rules! aops {
             #[allow(unused_mut)]
             fn snapshot(w: &mut VW, path: u8) -> Vec<Row> {
                 let mut out: Vec<Row> = Vec::new();
-                match path % 13 {
+                match path % 14 {
+                    // positional adaptors (nth / skip / step_by / last / count / size_hint), on iter() and
+                    // iter_mut(): even positions from one pass, odd positions from another
+                    13 => {
+                        let n = w.$f.len();
+                        let k = if n == 0 { 0 } else { (n / 2).min(3) };
+                        let want_k = w.$f.entities().get(k).map(|e| tok(*e));
+                        if w.$f.iter().nth(k).map(|x| tok(*x.0)) != want_k || w.$f.iter_mut().nth(k).map(|x| tok(*x.0)) != want_k {
+                            reg::with(|r| r.anomalies.push(format!("iter_nth:{}:{}", stringify!($A), k)));
+                        }
+                        if w.$f.iter_mut().last().map(|x| tok(*x.0)) != w.$f.entities().last().map(|e| tok(*e)) {
+                            reg::with(|r| r.anomalies.push(format!("iter_mut_last:{}", stringify!($A))));
+                        }
+                        {
+                            let mut it = w.$f.iter_mut();
+                            let mut seen = 0usize;
+                            if k > 0 { if it.nth(k - 1).is_some() { seen = k; } }
+                            let (lo, hi) = it.size_hint();
+                            let rest = it.count();
+                            if seen + rest != n || lo > rest || hi.map_or(false, |h| h < rest) {
+                                reg::with(|r| r.anomalies.push(format!("iter_mut_positional_count:{}:{}:{}:{}", stringify!($A), n, seen, rest)));
+                            }
+                        }
+                        let mut even: Vec<Row> = Vec::new();
+                        let mut odd: Vec<Row> = Vec::new();
+                        for (e, $($c),*) in w.$f.iter_mut().step_by(2) { even.push((tok(*e), vec![$(rd(&*$c)),*])); }
+                        for (e, $($c),*) in w.$f.iter_mut().skip(1).step_by(2) { odd.push((tok(*e), vec![$(rd(&*$c)),*])); }
+                        let mut oi = odd.into_iter();
+                        for r in even { out.push(r); if let Some(o) = oi.next() { out.push(o); } }
+                        // the same through iter(): must present the same rows in the same order
+                        let mut again: Vec<Tok> = Vec::new();
+                        let half: Vec<Tok> = w.$f.iter().skip(n / 2).map(|x| tok(*x.0)).collect();
+                        again.extend(w.$f.iter().take(n / 2).map(|x| tok(*x.0)));
+                        again.extend(half);
+                        if again != out.iter().map(|r| r.0).collect::<Vec<_>>() {
+                            reg::with(|r| r.anomalies.push(format!("iter_skip_take_order:{}", stringify!($A))));
+                        }
+                    }
                     // partially consumed iterators finished by internal iteration (fold-based consumers)
                     11 => {
                         let mut it = w.$f.iter();
